@@ -708,26 +708,36 @@ def rule_empty_labels(ctx):
         if not bad2:
             ctx.holds('R11', '%s: %d end-label reads, each after the size tests' % (name, cnt))
     # reindex step: np.take / ndarray.take from an empty source raises for any non-empty request (NumPy: "cannot do a non-empty take from an empty axes")
-    fr = ctx.fn(AL + 'reindex_axis')
-    evr = run(ctx, fr, mode='join')
+    for fr, who in ((ctx.fn(AL + 'reindex_axis'), 'reindex_axis'), (ctx.fn('dimarray.dataset.Dataset.reindex_axis'), 'Dataset.reindex_axis')):
+        _empty_source_guard(ctx, fr, who)
+
+
+def _empty_source_guard(ctx, fr, who):
+    evr = run(ctx, fr, mode='fork', max_paths=50000)
     src = None
-    guarded = False
+    guarded = None
     for p in evr.paths:
         for e in p.state.events:
             if e.kind == 'call' and T.call_name(e.a) in ('locate_many', 'take_axis'):
                 src = e
+                ok_here = False
                 for a, pol in e.guards:
                     x = _nonempty_fact(a, pol)
                     if x is not None and 'axes[' in T.show(x):
-                        guarded = True
+                        ok_here = True            # the source axis has labels
+                    # ... or nothing is requested (taking no position from an empty axis is fine)
+                    if a[0] == 'cmp' and a[1] == '<' and a[2] == const(0) and pol is False and 'size' in T.show(a[3]) and 'axes[' not in T.show(a[3]):
+                        ok_here = True
+                guarded = ok_here if guarded is None else (guarded and ok_here)
+    guarded = bool(guarded)
     if src is None:
-        ctx.undecide('R11', 'reindex_axis: the locate / take step was not found')
+        ctx.undecide('R11', '%s: the locate / take step was not found' % who)
     elif not guarded:
-        ctx.violated('R11', fr, 'source axis may be empty', 'reindex_axis locates and takes positions in the source axis without a size test: for an input whose '
+        ctx.violated('R11', fr, 'source axis may be empty', who + ' locates and takes positions in the source axis without a size test: for an input whose '
                      'label set is empty and a non-empty target (outer join with any other input) ndarray.take raises IndexError instead of giving an all-missing array',
                      node=src.node)
     else:
-        ctx.holds('R11', 'reindex_axis: take from the source axis guarded by a size test')
+        ctx.holds('R11', who + ': take from the source axis guarded by a size test')
 
 
 def rule_fold_direction(ctx):
